@@ -26,6 +26,9 @@ type Event struct {
 
 // Obs is what was observed after the event, once the node was quiescent.
 type Obs struct {
+	SigBytes   []byte `json:"-"` // part: the partial signature that was delivered
+	PrevBytes  []byte `json:"-"`
+	HeadBefore uint64 // stored head before the event
 	Rejected bool // part: ProcessPartialBeacon returned an error
 	Valid    bool // part: oracle bit (independent VerifyPartial against the epoch polynomial the node currently uses)
 	Puts     []PutObs
@@ -172,6 +175,7 @@ func (r *runner) Do(ev Event) Obs {
 	ctx := context.Background()
 	_, sends0, syncs0 := r.totals()
 	expEmits, expSync := 0, false
+	o.HeadBefore = w.Head()
 	switch ev.Kind {
 	case "start":
 		_ = w.H.Start(ctx)
@@ -251,6 +255,7 @@ func (r *runner) Do(ev Event) Obs {
 		// oracle bit: independent verification against the polynomial of the epoch the node is in
 		o.Valid = w.Sch.ThresholdScheme.VerifyPartial(w.H.VerifPubPoly(), w.Digest(ev.Round, prev), sig) == nil
 		r.lastPrev, r.lastSig = prev, sig
+		o.SigBytes, o.PrevBytes = sig, prev
 		pkt := &proto.PartialBeaconPacket{Round: ev.Round, PreviousSignature: prev, PartialSig: sig, Metadata: &proto.Metadata{BeaconID: "default"}}
 		_, err := w.H.ProcessPartialBeacon(ctx, pkt)
 		o.Rejected = err != nil
